@@ -313,8 +313,13 @@ Definition run_builtin (nm : name) (spf : bool) (stk : list frame) (args : list 
       let s' := push_trace (hd 0%N args) s in
       ((match args with [_; st] => st | _ => 0%N end, Cont), s')
   | NSet =>
-      (* `set -e` (args = [1]) / `set +e` (args = [0]) *)
-      ((0%N, Cont), set_errexit (match args with [b] => negb (N.eqb b 0) | _ => errexit s end) s)
+      (* `set +e` / `set -e` (args = [0] / [1]); `set +m` / `set -m` (args =
+         [2] / [3]): the monitor option does not take part in anything modelled *)
+      ((0%N, Cont),
+       set_errexit (match args with
+                    | [b] => if N.ltb b 2 then negb (N.eqb b 0) else errexit s
+                    | _ => errexit s
+                    end) s)
   | NBreak => (builtin_break true spf stk args, s)
   | NContinue => (builtin_break false spf stk args, s)
   | NReturn => (builtin_return true spf s args, s)
